@@ -306,7 +306,9 @@ ssize_t __wrap_recv(int fd, void *buf, size_t len, int flags)
     if (f->kind == EP_LATE && !f->connected) { errno = ECONNREFUSED; return -1; }
     if (f->rx_head == f->rx_tail) { errno = EAGAIN; return -1; }
     c = &f->rx[f->rx_head % 512];
-    if (c->kind == 1) { f->rx_head++; return 0; }
+    /* orderly close: recv returns 0 and leaves errno alone; the usual stale value on a
+       non-blocking socket is EAGAIN from an earlier call */
+    if (c->kind == 1) { f->rx_head++; errno = EAGAIN; return 0; }
     if (c->kind == 2) { f->rx_head++; errno = ECONNRESET; return -1; }
     n = c->len - c->off;
     if (n > len) n = len;
